@@ -21,7 +21,8 @@ class C03(Prop):
     level_note = ("Lean kernel + standard axioms for checker/decider theorems; verdict exactness rests on differential "
                   "testing (exhaustive small universes, random m<=7 vs brute force, planted positives at large sizes)")
     technique = "Lean-verified witness checker and brute-force decider; differential correspondence on verdict and witness validity"
-    theorems = []
+    theorems = ["PrefVerif.C11.spWitness_iff", "PrefVerif.C11.bruteSP_iff", "PrefVerif.C11.spOnAxis_iff",
+                "PrefVerif.C11.orderOk_iff"]
     rule = ("exhaustive: all profiles with <= 3 distinct orders over 3 alternatives and <= 2 over 4; random profiles "
             "m <= 7, n <= 6 against brute force; planted single-peaked profiles (random axis, outside-in votes) up to "
             "m = 30, n = 200 with shuffled storage and arbitrary ids, and one-swap perturbations; non-trivial = >= 2 "
